@@ -35,6 +35,7 @@ type ConnScript struct {
 	Cut    int    `json:"cut,omitempty"`
 	Hard   bool   `json:"hard,omitempty"`
 	What   string `json:"what,omitempty"`
+	SlowUS int    `json:"slow_read_us,omitempty"` // the client pauses this long after every read
 }
 
 // plan returns the bytes to send, the frame boundaries and the complete frames.
@@ -219,11 +220,11 @@ func c01Round(r *fw.Run, g *Rig, prop string, cc *c01Case, exact bool) int {
 			end = endHardClose
 		}
 		wg.Add(1)
-		go func(i int, data []byte, seg Seg, end int) {
+		go func(i int, data []byte, seg Seg, end int, slow int) {
 			defer wg.Done()
-			ex, err := rawExchange(g.Net, g.Dial, data, seg, end, 40*time.Second)
+			ex, err := rawExchange(g.Net, g.Dial, data, seg, end, 40*time.Second, slow)
 			obs[i] = connObs{ex, err}
-		}(i, data, seg, end)
+		}(i, data, seg, end, cs.SlowUS)
 	}
 	wg.Wait()
 	if g.tainted {
